@@ -156,6 +156,12 @@ func c08Body(t *testing.T, depth int, order bool, churn ...bool) mc.Body {
 				out = mc.Outcome{Violation: "HARNESS: fixture: " + err.Error(), Key: "harness"}
 				return
 			}
+			// the client may be busy for 150 ms while it handles the first batch it is told of (the batches that
+			// follow must still reach it in the order they were accepted)
+			if !isChurn && !order && x.Choose(2, "client: prompt / busy during its first Points call") == 1 {
+				g.reg.firstPointsDelay = 150 * time.Millisecond
+				x.Logf("the client is busy for 150 ms during its first Points call")
+			}
 			g.startManager()
 			g.s.quiesce()
 			c := g.reg.clients[root+"-N1"]
@@ -235,6 +241,11 @@ func c08Body(t *testing.T, depth int, order bool, churn ...bool) mc.Body {
 				}
 			}
 			g.s.quiesce()
+			if g.reg.firstPointsDelay > 0 {
+				// let the busy client finish what it is doing (it notes a batch when it is done with it)
+				g.s.run(g.reg.firstPointsDelay + 100*time.Millisecond)
+				g.s.quiesce()
+			}
 			if g.s.stuck != "" {
 				out = mc.Outcome{Violation: g.s.stuck, Key: "no-progress"}
 				return
@@ -385,7 +396,7 @@ func TestC08(t *testing.T) {
 			depth = 3
 		}
 		r.Explore(mc.Config{Name: fmt.Sprintf("batch-sequences-d%d", depth), Serial: true, SplitDepth: 1, SelfCheckEvery: 53,
-			Rule: fmt.Sprintf("all sequences of %d batches over a 31-batch alphabet: author in {\"\", the client's id, a child's id, a sibling client's id, another party} x target in {client node, child, grand-child, unrelated sibling}, one- and two-point batches, batches the store refuses (NaN), edge-point batches on the client node's own edge, on the edge to its child and on the edge to its grand-child; each batch carries one origin and a unique marker, and its points are either later than everything before or carry exactly the time of the newest point of their identity (a tie); Points/EdgePoints callbacks of the instrumented client compared with the accepted history (told exactly once and in order for foreign changes in the subtree, never for its own), and the folded configuration compared with Decode of the store's node", depth)},
+			Rule: fmt.Sprintf("all sequences of %d batches over a 31-batch alphabet: author in {\"\", the client's id, a child's id, a sibling client's id, another party} x target in {client node, child, grand-child, unrelated sibling}, one- and two-point batches, batches the store refuses (NaN), edge-point batches on the client node's own edge, on the edge to its child and on the edge to its grand-child; each batch carries one origin and a unique marker, and its points are either later than everything before or carry exactly the time of the newest point of their identity (a tie); the client either prompt or busy for 150 ms (longer than the quiescence window) during its first Points call; Points/EdgePoints callbacks of the instrumented client compared with the accepted history (told exactly once and in order for foreign changes in the subtree, never for its own), and the folded configuration compared with Decode of the store's node", depth)},
 			c08Body(t, depth, false))
 		r.Explore(mc.Config{Name: "delivery-order-d2", Serial: true, SplitDepth: 1, DevBound: 1,
 			Rule: "the same alphabet, sequences of 2 batches, with one scheduling deviation (another pending delivery first, or the second batch written before the system is quiescent)"},
